@@ -622,7 +622,7 @@ def conclude(pid, spec, tier, seed, res):
                 scen = corr.get("scen_index", {}).get(m.group(1))
         what = []
         if not proof.get("ok"):
-            what.append("theorems of props/%s.v (%s)" % (pid, ", ".join(proof.get("theorems", [])) or "not compiled"))
+            what.append("theorems of props/%s.v (%s)" % (pid, proof.get("failed_statement") or ", ".join(proof.get("theorems", [])) or "not compiled"))
         if mism:
             what.append("model/implementation correspondence")
         replay_path = core.write_replay(pid, {"property": pid, "tier": tier, "seed": seed,
